@@ -145,7 +145,7 @@ VERUS_UNITS = {
     },
     'accessors': {
         'template': 'accessors.rs.tpl',
-        'owners': [(r'React::(get|get_mut|get_noreact|set_if_neq|take)$', ['C14']), (r'ReactResInner::(new|get_mut|get_noreact|set_if_neq|take)$', ['C14']), (r'ReactiveMut::(set_if_neq|set_single_if_not_eq)$', ['C14'])],
+        'owners': [(r'React::(get|get_mut|get_noreact|set_if_neq|take)$', ['C14']), (r'ReactResInner::(new|get_mut|get_noreact|set_if_neq|take)$', ['C14']), (r'ReactiveMut::(set_if_neq|set_single_if_not_eq|get_mut|single_mut|get_noreact)$', ['C14'])],
         'negctl': [
             ('&&& (new.eq_spec(&old_c.component) ==> (r is None && new_c.component == old_c.component && log1 == log0))', '&&& (new.eq_spec(&old_c.component) ==> (r is None && new_c.component == old_c.component && log1.len() == log0.len() + 1))', 'ReactiveMut::set_if_neq'),
             ('new.eq_spec(&old(self).component) ==> (r is None && final(self).component == old(self).component && (*final(c)).log() == (*old(c)).log()),',
@@ -382,7 +382,7 @@ PROPS = {
         note=ENVNOTE + '; stub System = assumed contract of bevy System; Box<dyn FnMut> callbacks are opaque values in the Verus unit',
         explanation='storage take/insert and the runner\'s take-on-run-path / reinsert-the-same-callback obligations proved (Verus); one initialisation and instance identity over bounded run sequences (Kani)'),
     'C14': dict(category='other', design_ref='DESIGN.md 5/C14',
-        text='Verus proves on the verbatim text, generically in the component / resource type: React::{get,get_noreact,take} and ReactResInner::{get_noreact,take} queue nothing; get_mut queues exactly one trigger (for the owning entity); set_if_neq(new) stores, returns the old value and queues one trigger iff new != old by the type\'s PartialEq, and otherwise changes and queues nothing. Kani, loop-free over the full u32 value domain on the real accessors against the stub Commands (counting queued commands): React::{get,get_noreact} and the ReactResMut read paths queue nothing; React::get_mut / ReactResMut::get_mut queue exactly one trigger command per call; set_if_neq(new): new == old => None, value unchanged, nothing queued; new != old => Some(old), value stored, exactly one trigger. The trigger itself: schedule_mutation_reaction / schedule_insertion_reaction queue exactly one command per matching registration for THIS entity and component type (Verus, verbatim, lists of any length; Kani restates it on the compiled code for bounded shapes), and schedule_insertion_reaction queues nothing for an entity that does not carry the component (despawned before apply). ReactiveMut::set_if_neq / set_single_if_not_eq (the query-level wrappers) change exactly the addressed entity\'s component and queue one trigger iff the value changes (Verus, verbatim, over a stand-in for the component query; the other ReactiveMut accessors use Mut::into_inner and stay with Kani: K.accessors.reactive_mut.*). Level other: Kani value-level clauses are complete per instantiation.',
+        text='Verus proves on the verbatim text, generically in the component / resource type: React::{get,get_noreact,take} and ReactResInner::{get_noreact,take} queue nothing; get_mut queues exactly one trigger (for the owning entity); set_if_neq(new) stores, returns the old value and queues one trigger iff new != old by the type\'s PartialEq, and otherwise changes and queues nothing. Kani, loop-free over the full u32 value domain on the real accessors against the stub Commands (counting queued commands): React::{get,get_noreact} and the ReactResMut read paths queue nothing; React::get_mut / ReactResMut::get_mut queue exactly one trigger command per call; set_if_neq(new): new == old => None, value unchanged, nothing queued; new != old => Some(old), value stored, exactly one trigger. The trigger itself: schedule_mutation_reaction / schedule_insertion_reaction queue exactly one command per matching registration for THIS entity and component type (Verus, verbatim, lists of any length; Kani restates it on the compiled code for bounded shapes), and schedule_insertion_reaction queues nothing for an entity that does not carry the component (despawned before apply). ReactiveMut (the query-level wrappers; Verus, verbatim, over a stand-in for the component query, under the representation invariant that a React<T> records the entity it is attached to): get_mut / single_mut queue exactly one trigger for the addressed entity and hand out exclusive access to ITS component, get_noreact queues nothing, set_if_neq / set_single_if_not_eq change exactly the addressed entity\'s component and queue one trigger iff the value changes; K.accessors.reactive_mut.* restates get_mut on the compiled code. Level other: Kani value-level clauses are complete per instantiation.',
         note=ENVNOTE + '; component/resource instantiated at a u32 newtype',
         explanation='accessor clauses complete@shape (Kani, loop-free, full value domain); dispatch of the trigger bounded (Kani)'),
     'C17': dict(category='other', design_ref='DESIGN.md 9.5',
